@@ -411,7 +411,7 @@ func c04Exec(c *Case, generate bool) (*Violation, *execStats) {
 		if err != nil {
 			// which pairs merge is C05's business; without a result there is nothing to check here
 			st.Probes["merge_refused"]++
-			st.logf("merge refused: %v", err)
+			st.logf("merge refused: %s", addrRe.ReplaceAllString(err.Error(), "0xADDR"))
 			return nil, st
 		}
 		sides = []side{{"a", a}, {"b", b}, {"merged", m}}
